@@ -349,6 +349,7 @@ END { r = close("catto:%OUT%"); print "L" mark(); if (r != 0) print "BAD " r }`,
 	{"sub-print-pipe-end-of-run", `{ print $1 | "catto:%OUT%" }`, 5},
 	{"sub-mixed-main-rule", `NR % 2 { system("mark:%MARK%") }
 { "emit:k" NR | getline v; close("emit:k" NR); print "L" mark(); if (v != "k" NR) print "BAD " v }`, 6},
+	{"sub-process-group", `BEGIN { "pgrp" | getline g; close("pgrp"); print "L" mark(); if (g != "pgrp-same") print "BAD " g; r = system("pgrp"); print "L" mark() }`, 0},
 	{"sub-in-function-END", `function f(   v) { "emit:z" | getline v; close("emit:z"); return v system("exit:0") }
 END { print "L" mark(); if (f() != "z0") print "BAD" }`, 2},
 }
